@@ -40,6 +40,7 @@ def cases(tier, seed):
     for c in ds[:10 if tier == 'quick' else 150]:
         for s in SIMS:
             out.append(dict(c, k='step_multiple', sim=s, K=2, keys=('name', 'wire')[len(out) % 2]))
+            out.append(dict(c, k='step_multiple', sim=s, K=3, form='nsteps', keys=('name', 'wire')[len(out) % 2]))
             out.append(dict(c, k='vcd', sim=s, K=2))
             out.append(dict(c, k='print_trace', sim=s, K=3))
     for kind_ in ('digits', 'mixed', 'odd'):
@@ -53,6 +54,7 @@ def cases(tier, seed):
                 if w == 3 and exc not in ('custom', 'pyrtl'):
                     continue
                 out.append({'k': 'rtl_assert', 'sim': s, 'w': w, 'K': 3, 'exc': exc})
+            out.append({'k': 'rtl_assert_channels', 'sim': s, 'w': w, 'K': 3})
     for s in SIMS:
         for w in (1, 4, 8, 64, 70):
             out.append({'k': 'illegal', 'sim': s, 'w': w})
@@ -379,6 +381,12 @@ def do_step_multiple(case, ob, site):
     expected = {key(w): [SymInt.mk(z3.BitVec('exp_%s_%d' % (w.name, t), w.bitwidth + 2), False) for t in range(K)] for w in outs}
     if not provided:
         return ob.fact('skipped-no-inputs', True)
+    # 'nsteps' form: no expectations, an explicit nsteps smaller than the number of supplied values (the rest is not simulated)
+    nsteps_form = case.get('form') == 'nsteps'
+    Kn = K - 1 if nsteps_form else K
+    smkw = {'nsteps': Kn} if nsteps_form else {}
+    if nsteps_form:
+        expected = {}
     # reference: the same steps one at a time
     if kind == 'compiled':
         cm = CompiledModel(block)
@@ -399,12 +407,12 @@ def do_step_multiple(case, ob, site):
             sim = cm.sim
             sim._crun = lambda steps, ibuf, obuf: cm.crun(steps, ibuf, obuf)
             with sym.stubs(cs, ctypes=simdrv._CtypesShim(), int=sym.sym_int):
-                sim.step_multiple(provided, expected, file=buf)
+                sim.step_multiple(provided, expected, file=buf, **smkw)
         else:
             sim = (pyrtl.Simulation if kind == 'sim' else pyrtl.FastSimulation)(
                 block=block, tracer=pyrtl.SimulationTrace(block=block, wires_to_track=ins + list(block.wirevector_subset(pyrtl.Output))))
             simdrv.symbolize_mems(sim, block, kind)
-            sim.step_multiple(provided, expected, file=buf)
+            sim.step_multiple(provided, expected, file=buf, **smkw)
         return buf.getvalue(), {n: list(sim.tracer.trace[n]) for n in sim.tracer.trace}
     if kind == 'compiled':
         paths = explore(body, max_paths=1 << 10)
@@ -420,14 +428,14 @@ def do_step_multiple(case, ob, site):
         goals = []
         for n, vals in trace.items():
             w = block.wirevector_by_name[n]
-            ob.fact('trace-length:%s' % n, len(vals) == K, site + ':length')
-            for t in range(min(K, len(vals))):
+            ob.fact('trace-length:%s' % n, len(vals) == Kn, site + ':length', detail='%d entries after step_multiple(nsteps=%d)' % (len(vals), Kn))
+            for t in range(min(Kn, len(vals))):
                 goals.append(('same-trace-as-single-steps:%s@%d' % (n, t), to_bv(vals[t], w.bitwidth + 1) == to_bv(ref.trace[n][t], w.bitwidth + 1),
                               site + ':trace'))
         rows = parse_report(text)
         listed = {(st, nm): (e, a) for st, nm, e, a in rows}
         ob.fact('report-lists-each-pair-once', len(listed) == len(rows), site + ':report-duplicates')
-        for w in outs:
+        for w in (outs if not nsteps_form else []):
             for t in range(K):
                 ev = expected[key(w)][t]
                 av = ref.trace[w.name][t]
@@ -625,6 +633,53 @@ def do_rtl_assert(case, ob, site):
                 ob.prove('exception-within-%d-cycles-only-if-low-by-then' % (t + 1), z3.Or(*badt), r.pc, vt, site=site + ':early')
 
 
+def do_rtl_assert_channels(case, ob, site):
+    """a caller that catches the rtl_assert exception still sees agreeing channels: the cycle on which the assertion fired was
+    simulated (it is in the trace, the trace has one entry per step) and inspect() shows it"""
+    kind, w, K = case['sim'], case['w'], case['K']
+    pyrtl.reset_working_block()
+    a = pyrtl.Input(w, 'a')
+    r = pyrtl.Register(w, 'r')
+    r.next <<= a
+    o = pyrtl.Output(w, 'o')
+    o <<= a ^ r
+
+    class MyErr(Exception):
+        pass
+    exp = MyErr('assertion failed')
+    pyrtl.rtl_assert(a != ((1 << w) - 1), exp)
+    block = pyrtl.working_block()
+    v = Vars()
+
+    def body():
+        sim = make_sim(kind, block)
+        obs = []
+        for t in range(K):
+            try:
+                sim.step({'a': SymInt.mk(v.inp('a', t, w), False)})
+                fired = False
+            except MyErr:
+                fired = True
+            obs.append((fired, len(sim.tracer.trace['a']), {n: (sim.inspect(n), sim.tracer.trace[n][-1]) for n in ('a', 'o', 'r')}))
+        return obs
+    with sym_env([block]):
+        paths = explore(body)
+    ob.paths += len(paths)
+    for p in paths:
+        if p.exc is not None:
+            ob.prove('no-other-exception(%s)' % type(p.exc).__name__, z3.Not(p.cond()), [], v, site=site + ':exception')
+            continue
+        goals = []
+        for t, (fired, n, chans) in enumerate(p.result):
+            ob.fact('trace-has-one-entry-per-step@%d' % t, n == t + 1, site + ':trace-length',
+                    detail='%d entries after %d steps (assertion fired in this step: %s)' % (n, t + 1, fired))
+            for name, (ins_, last) in chans.items():
+                goals.append(('inspect(%s)==last-trace-entry@%d%s' % (name, t, ':after-assertion' if fired else ''),
+                              to_bv(ins_, w + 1) == to_bv(last, w + 1), site + ':inspect'))
+            goals.append(('trace-records-the-input@%d' % t, to_bv(chans['a'][1], w) == v.inp('a', t, w), site + ':trace-value'))
+        ob.prove_all(goals, list(p.pc), v)
+
+
 def do_illegal(case, ob, site):
     kind, w = case['sim'], case['w']
     pyrtl.reset_working_block()
@@ -721,7 +776,7 @@ def do_rejected_step(case, ob, site):
 
 KINDS = {'inspect': do_inspect, 'step_multiple': do_step_multiple, 'vcd': do_vcd, 'print_trace': do_print_trace,
          'rtl_assert': do_rtl_assert, 'default_tracer': do_default_tracer, 'two_sims': do_two_sims, 'run_many': do_run_many, 'illegal': do_illegal, 'step_multiple_resume': do_step_multiple_resume,
-         'rejected_step': do_rejected_step}
+         'rejected_step': do_rejected_step, 'rtl_assert_channels': do_rtl_assert_channels}
 
 
 def run_case(case, ob, tier):
@@ -753,11 +808,11 @@ def replay(cex):
         return bad, '%s.step({a: %d}) on a %d-bit input: %s, o=%r' % (cls.__name__, val, c['w'], 'accepted' if acc else 'rejected', seen)
     if k == 'rejected_step':
         return replay_rejected_step(c, cex.get('model', {}))
-    if cex.get('structural') or k in ('print_trace', 'step_multiple_resume'):
+    if cex.get('structural') or k in ('print_trace', 'step_multiple_resume', 'rtl_assert_channels'):
         ob = Obligations(PROP, c, 20000)
         KINDS[k](c, ob, site_of(c))
         bad = [x['obligation'] for x in ob.sat]
-        return cex['obligation'] in bad or (bool(bad) and k in ('print_trace', 'step_multiple_resume')), 'failing on re-execution: %r' % bad[:5]
+        return cex['obligation'] in bad or (bool(bad) and k in ('print_trace', 'step_multiple_resume', 'rtl_assert_channels')), 'failing on re-execution: %r' % bad[:5]
     # symbolic obligations: re-execute with the model values substituted concretely
     mv = cex.get('model', {})
     block = designs.build(c) if 'fam' in c else None
